@@ -2255,7 +2255,12 @@ func listStyleType_(tokens []Token) (out pr.CounterStyleID, ok bool) {
 	token := tokens[0]
 	switch token := token.(type) {
 	case pa.Ident:
-		return pr.CounterStyleID{Name: string(token.Value)}, true
+		name := string(token.Value)
+		if utils.AsciiLower(name) == "none" {
+			// `none` is a keyword (ASCII case-insensitive), not a counter style name
+			name = "none"
+		}
+		return pr.CounterStyleID{Name: name}, true
 	case pa.String:
 		return pr.CounterStyleID{Type: "string", Name: token.Value}, true
 	case pa.FunctionBlock:
